@@ -730,6 +730,7 @@ func init() {
 		}
 		c.Rule = "model families (ACL, superuser, ACL without users / resources, RBAC, resource roles, RBAC with domains, deny / priority effects, keyMatch/regexMatch, ABAC on maps and structs, in-lists, eval() sub-rules, EnforceContext, disabled enforcer, broken matchers) x their own matcher and random matcher ASTs of depth <= 3 (printed with minimal or full parentheses, dotted or escaped, either quote, [ ] or ( ) lists) x random policies / role links over the small universe x EVERY request over the universe plus wrong-arity and non-string requests; bounded-exhaustive part: every policy of <= 2 rules x every link set over 3 names for the three RBAC families; role chains of 9..12 links and cyclic graphs always included; CONSTRUCTION MODES: every case is installed on the real enforcer in a seeded way — seq (AddNamedPolicy then AddNamedGroupingPolicy one by one), load (adapter + LoadPolicy), inter (single calls of all policy types and role definitions randomly interleaved, Enforce calls in between), batch (AddNamedPolicies / AddNamedGroupingPolicies in random chunks), mixed (part loaded, the rest by interleaved single calls, plus links outside the case added to a role definition and removed again) — and the listing is checked afterwards (p: exact order, g: same set); a family with two role definitions g, g2 over ONE name universe (rbac-two-graphs) and cases with two policy types p, p2 whose second matcher uses g2 on subjects and g on objects (two-types) exercise the routing of incremental rules to the right policy type / role graph; non-trivial = some error-free request is allowed; observables: Enforce, EnforceEx (+ explained rule), EnforceWithMatcher(own matcher), BatchEnforce"
 
+		c01Json(c)
 		// ---- 1. every family with its own matcher and with random matchers
 		for _, f := range fams {
 			effs := f.effects
